@@ -356,6 +356,11 @@ pub fn errno_name(e: i32) -> &'static str {
         libc::ENFILE => "ENFILE",
         libc::EBUSY => "EBUSY",
         libc::ENXIO => "ENXIO",
+        libc::ENAMETOOLONG => "ENAMETOOLONG",
+        libc::EFAULT => "EFAULT",
+        libc::EOVERFLOW => "EOVERFLOW",
+        libc::EEXIST => "EEXIST",
+        libc::EOPNOTSUPP => "EOPNOTSUPP",
         _ => "E?",
     }
 }
